@@ -257,7 +257,7 @@ Theorem lanczos_guards_gen (g : lz_args F) :
       (forall iv, g_callable g -> g_init g = Some iv -> g_debug g -> i_dtype_ok iv -> g_batch g != i_batch iv ->
          lanczos_tridiag A g = Err ErrBatchShape),
       (forall iv, g_callable g -> g_init g = Some iv -> g_debug g -> i_dtype_ok iv -> g_batch g = i_batch iv ->
-         g_n g != i_n iv -> lanczos_tridiag A g = Err ErrMatrixShape) &
+         ~~ i_onedim iv -> g_n g != i_n iv -> lanczos_tridiag A g = Err ErrMatrixShape) &
       (forall nvec init, g_callable g -> lz_start g = Ok (nvec, init) -> minn (g_max_iter g) (g_n g) < 2 ->
          lanczos_tridiag A g = Err ErrIndex)].
 Proof.
@@ -265,8 +265,18 @@ rewrite /lanczos_tridiag /lz_start; split.
 - by move=> /negbTE->.
 - by move=> iv -> -> -> /negbTE->.
 - by move=> iv -> -> -> -> /negbTE-> /=.
-- by move=> iv -> -> -> -> -> /=; rewrite eqxx /= => /negbTE->.
+- by move=> iv -> -> -> -> -> /=; rewrite eqxx /= => /negbTE-> /negbTE->.
 - by move=> nvec init -> /= -> ->.
+Qed.
+
+(* a 1-D init_vecs (which root_inv_decomposition lets through): IndexError, from init_vecs.size(-2) in debug mode and
+   from torch.norm(init_vecs, 2, dim=-2) otherwise (known finding C09-initial-vector-1d at the operator level) *)
+Theorem lanczos_onedim_gen (g : lz_args F) iv :
+  g_callable g -> g_init g = Some iv -> i_onedim iv ->
+  (g_debug g -> i_dtype_ok iv /\ g_batch g = i_batch iv) -> lanczos_tridiag A g = Err ErrIndex.
+Proof.
+rewrite /lanczos_tridiag /lz_start => -> -> -> /=; case: (g_debug g) => [H|_] //.
+by have [-> ->] := H isT; rewrite eqxx.
 Qed.
 
 End Gen.
